@@ -43,7 +43,7 @@ fn reorder_script(rng: &mut Rng) -> Vec<E<i64>> {
 
 pub fn generate(opts: &Opts, sink: &mut CaseSink) {
     let mut rng = Rng::new(opts.seed);
-    let n = if opts.thorough { 6000 } else { 700 };
+    let n = (if opts.thorough { 6000 } else { 700 }) / opts.scale;
     for _ in 0..n {
         let s = reorder_script(&mut rng);
         let s2 = s.clone();
